@@ -17,7 +17,7 @@ RULE = ("files x read options x short handle histories. Files: W = written by fa
         "with and without a plain-encoded fallback row group); H = hive datasets with 1-2 partition columns; "
         "I = frames written with a named index of 14 kinds (ints, floats, text, bool, masked, categorical, "
         "timestamps of several units and time zones, timedelta; with and without a missing value in the index); "
-        "I2 = frames written with a two-level index. Options: columns (None, each single, reversed), categories "
+        "I2 = frames written with a two-level index. Options: columns (None, each single, reversed; on hive datasets also selections naming the partition columns before / between / after data columns and in reversed level order), categories "
         "(None, list, dict, [] and {} = decline the stored categoricals; list / dict also on dictionary-encoded "
         "foreign columns), index (None, False, name of another data or partition column, list of two names), "
         "pandas_nulls (True, False), dtypes override (per column int -> float64 / masked int, masked -> float64; "
@@ -357,6 +357,13 @@ def compare(c, pf_factory, what, datacols, partcols=(), index_names=(), dict_col
     thorough = c.p.get("tier") == "thorough"
     allcols = list(datacols)
     col_opts = [None] + [[x] for x in allcols] + ([list(reversed(allcols))] if len(allcols) > 1 else [])
+    if partcols:
+        # partition columns named in the selection: before / between / after the data columns, and in an order
+        # other than that of the directory levels
+        pc = list(partcols)
+        col_opts += [[pc[0], allcols[0]], [allcols[0], pc[0]], [pc[0]], [allcols[-1]] + pc[::-1] + allcols[:1]]
+        if len(pc) > 1:
+            col_opts += [pc[::-1], [pc[1], allcols[0], pc[0]]]
     for pn in (True, False):
         for cols in col_opts:
             for cats in ("none", "list", "dict", "empty_list") + (("empty_dict",) if thorough or cols is None else ()):
@@ -364,7 +371,8 @@ def compare(c, pf_factory, what, datacols, partcols=(), index_names=(), dict_col
                     ilist = _index_list(index)
                     if ilist is not None and cols is not None and any(i not in cols for i in ilist):
                         continue
-                    c.ctx = {"pandas_nulls": pn, "cols": "all" if cols is None else ("single" if len(cols) == 1 else "reversed"),
+                    c.ctx = {"pandas_nulls": pn, "cols": "all" if cols is None else ("with_partition" if any(x in partcols for x in cols) else
+                                                                   "single" if len(cols) == 1 else "reversed"),
                              "categories": cats, "index": str(index)}
                     if ilist is not None and any(i in partcols for i in ilist):
                         c.ctx["index_is"] = "partition"
